@@ -380,6 +380,14 @@ VALUE_QUALIFIER = {
 }
 
 
+# a Set declared in ANOTHER package and referred to as pkg.Set: the generator warns "not supported", drops the Set and
+# turns everything it supplies into injector parameters (known finding KF-C10-1)
+XSET = {
+    "prov/p.go": 'package prov\n\nimport "github.com/mazrean/kessoku"\n\ntype A struct{ S string }\n\nfunc NewA() *A { return &A{S: "a"} }\n\nvar Base = kessoku.Set(kessoku.Provide(NewA))\n',
+    "k.go": 'package main\n\nimport (\n\t"github.com/mazrean/kessoku"\n\t"vscratch/xset/prov"\n)\n\ntype B struct{ A *prov.A }\n\nfunc NewB(a *prov.A) *B { return &B{A: a} }\n\nvar _ = kessoku.Inject[*B]("InitB", prov.Base, kessoku.Provide(NewB))\n\nfunc main() {}\n',
+}
+
+
 def write_pkg(mod, name, files):
     d = os.path.join(mod, name)
     os.makedirs(d, exist_ok=True)
@@ -443,6 +451,8 @@ def _stage(seed, tier, key="N-x"):
     for i in range(8 if tier == "quick" else 40):
         files, targets, meta = third_pkg_clash(rnd, i)
         pkgs.append(("tp%d" % i, files, targets, None, meta))
+    pkgs.append(("xset", XSET, ["k.go"], "KF-C10-1", dict(kind="known finding reproducer (Set of another package)", signature="no vet signature: the file compiles",
+                                                       expect_params={"k_band.go": {"InitB": []}}, known_params={"k_band.go": {"InitB": ["*prov.A"]}})))
     for kid, (body, sig) in KNOWN.items():
         pkgs.append(("known_" + kid.replace("-", "_"), {"k.go": wrap(body)}, ["k.go"], kid, dict(kind="known finding reproducer", signature=sig)))
     def one(p):
